@@ -14,7 +14,7 @@ from checks import common as c
 from checks import topogen as tg
 
 CHAINS = ['F80', 'F200', 'F460', 'F1000', 'F80_F60', 'F40_U_F30', 'U_F60', 'F80_E_F70', 'Efull_F100_Efull', 'Etype_F100_Egain',
-          'Evoa_F90_Edp', 'F200att', 'F100lumped', 'F80perfreq', 'R80_E', 'F80_R80', 'F0.05']
+          'Evoa_F90_Edp', 'F200att', 'F100lumped', 'F80perfreq', 'R80_E', 'F80_R80', 'F0.05', 'Evoa_F100', 'Evoa_F70_F70']
 SIMS = {
     'default': {},
     'raman_p2': {'raman_params': {'flag': True, 'method': 'perturbative', 'order': 2, 'result_spatial_resolution': 10e3,
@@ -120,9 +120,68 @@ def receiver_figures(net, equipment, sim):
     return out
 
 
+# ---- the same input designed in separate processes under different string-hash seeds ------------------------------------------
+HASH_INPUTS = [
+    {'eq': 'multiband', 'bands': 'CL', 'graph': 'P2', 'chain': 'F80_F60'},
+    {'eq': 'multiband', 'bands': 'CL', 'graph': 'P3', 'chain': 'F80'},
+    {'eq': 'multiband', 'bands': 'CL_first', 'graph': 'TRI', 'chain': 'F40_U_F30'},
+    {'eq': 'multiband', 'bands': 'C', 'graph': 'P2', 'chain': 'F120'},
+    {'eq': 'multiband', 'bands': 'CLn', 'graph': 'P2', 'chain': 'F10', 'chain_rev': 'F10', 'drop_ter': True},
+    {'eq': 'multiband', 'bands': 'CLn', 'graph': 'P2', 'chain': 'F80', 'drop_ter': True},
+    {'eq': 'multiband', 'bands': 'CLn', 'graph': 'P3', 'chain': 'F80_F60'},
+    {'eq': 'example', 'graph': 'TRI', 'chain': 'F200', 'max_length': 90},
+    {'eq': 'test', 'graph': 'P3', 'chain': 'F80_E_F70', 'mode': 'gain'},
+]
+
+
+def digest_cli(arg):
+    """child process: design one input, print a digest of the export and the selected amplifier models"""
+    import hashlib
+    from gnpy.tools.json_io import network_to_json
+    case = json.loads(arg)
+    try:
+        net, equipment, _, _ = c.design(tg.topology(case), tg.library(case))
+        doc = canon_export(network_to_json(net))
+        text = json.dumps(doc, sort_keys=True)
+        models = sorted((u, e.get('type_variety'), [a.get('type_variety') for a in e.get('amplifiers', [])])
+                        for u, e in doc['elements'].items() if e['type'] in ('Edfa', 'Multiband_amplifier'))
+        print('DIGEST ' + json.dumps({'sha': hashlib.sha256(text.encode()).hexdigest(), 'models': models}))
+    except Exception as exc:  # noqa
+        print('DIGEST ' + json.dumps({'sha': f'raised:{type(exc).__name__}:{str(exc)[:120]}', 'models': []}))
+
+
+def run_hashseed(case):
+    import os
+    import subprocess
+    import sys
+    viol = []
+    outs = {}
+    for hs in case['hashseeds']:
+        env = dict(os.environ, PYTHONHASHSEED=str(hs))
+        r = subprocess.run([sys.executable, '-c', 'import sys; from checks import c17; c17.digest_cli(sys.argv[1])',
+                            json.dumps(case['input'])], env=env, capture_output=True, text=True, timeout=300)
+        line = next((x for x in r.stdout.splitlines() if x.startswith('DIGEST ')), None)
+        if line is None:
+            return {'status': 'unjudged', 'unjudged': 1, 'tags': {'hashseed-child-failed': 1}, 'sample': case,
+                    'transitions': 0}
+        outs[hs] = json.loads(line[7:])
+    ref = outs[case['hashseeds'][0]]
+    for hs, o in outs.items():
+        if o['sha'] != ref['sha']:
+            diff = [(a, b) for a, b in zip(ref['models'], o['models']) if a != b][:2]
+            viol.append(dict(fingerprint='design-differs-between-processes', case=case,
+                             what=f'input {case["input"]}: the export of the design differs between two interpreter processes '
+                                  f'(PYTHONHASHSEED {case["hashseeds"][0]} vs {hs}); amplifier models that differ: {diff}'))
+            break
+    return {'violations': viol, 'transitions': len(outs), 'traces': 0 if viol else 1, 'nontrivial': not ref['sha'].startswith('raised'),
+            'tags': {'hashseed-inputs': 1, 'hashseed-designs': len(outs)}, 'outcomes': ['hashseed'], 'sample': case}
+
+
 def run_case(case):
     import numpy as np
     from gnpy.core.exceptions import ConfigurationError
+    if case.get('kind') == 'hashseed':
+        return run_hashseed(case)
     viol = []
 
     def v(fp, what):
@@ -233,9 +292,11 @@ def main(rep, tier, seed):
     d = 2 if tier == 'quick' else 3
     bases = engine.pick_bases(sp.bases, seed, tier, n_quick=2)
     cases = [{k: x[k] for k in SPACE} for x in sp.enumerate(d, bases=bases)]
+    hs = list(range(4 if tier == 'quick' else 12))
+    cases += [dict(kind='hashseed', input=i, hashseeds=hs) for i in HASH_INPUTS]
     results, stats = engine.run_pool('checks.c17', cases, horizon=600)
     rep.absorb(results)
-    rep.cov['bound'] = f'<= {d} deviations from base points {bases} over {list(SPACE)}; 1-3 export/reload/redesign rounds'
+    rep.cov['bound'] = f'<= {d} deviations from base points {bases} over {list(SPACE)}; 1-3 export/reload/redesign rounds; + {len(HASH_INPUTS)} inputs designed in {len(hs)} separate processes with PYTHONHASHSEED 0..{len(hs) - 1}'
     rep.cov['space_size'] = len(cases)
     rep.cov['exhaustive'] = not stats['budget_hit'] and len(results) == len(cases)
     rep.cov['rule'] = ('a case = a history: design, design again, then k rounds of network_to_json -> json dump/load -> '
@@ -244,5 +305,6 @@ def main(rep, tier, seed):
                        'JSON identical before/after every completed design. Non-trivial: design inserted elements / set a VOA / '
                        'ran the Raman estimate.')
     rep.assumptions += ['designs that abort with an error are not judged here (C08 judges them); their SimParams state is recorded']
+    rep.require(rep.tags.get('hashseed-inputs', 0) == len(HASH_INPUTS), 'hash-seed designs did not all run')
     for k in ('design-inserted-elements', 'raman-estimate-ran', 'sim:raman_p2'):
         rep.require(rep.tags.get(k, 0) >= 1, f'{k} never observed')
